@@ -4,4 +4,6 @@ go 1.21.4
 
 require github.com/stackus/goht v0.0.0
 
+require golang.org/x/net v0.34.0
+
 replace github.com/stackus/goht => /repo
